@@ -325,11 +325,11 @@ soft_ks!(soft_ks128, crate::Aes128, fx::k128, 16, 10, 88);
 soft_ks!(soft_ks128e, crate::Aes128Enc, fx::k128e, 16, 10, 88);
 //@ harness name=soft_ks128d prop=C02,C03,C12 tier=quick bits=128 stub=1 quick_variants=aes:soft64 est=110 need=6 desc="W(KS): key words of Aes128Dec::new(key) == fixslice format of KeyExpansion(key); all keys (decrypt-only form, own constructor)"
 soft_ks!(soft_ks128d, crate::Aes128Dec, fx::k128d, 16, 10, 88);
-//@ harness name=soft_enc128 prop=C02,C03,C20 tier=thorough bits=1536 stub=1 variants=aes:soft64,aes:soft64c,aes:soft32,aes:soft32c,aes:soft64+hazmat,aes:soft32+hazmat est=240 need=8 desc="W(ENC): Aes128 on the state m_keys(rk): encrypt_block(b) == FIPS-197 Cipher(rk, b); all 11 round keys arbitrary (superset of all keys), all blocks; S-box uninterpreted on lane 0 (shared with the oracle), mix_columns_k replaced by their proved specification ShiftRows^-k o MixColumns o ShiftRows^k on lane 0, padding lanes havocked in every stubbed layer; round sequencing, key offsets, add_round_key, shift_rows_2, batch padding, bitslice / inv_bitslice real"
+//@ harness name=soft_enc128 prop=C02,C03,C20 tier=quick bits=1536 stub=1 variants=aes:soft64,aes:soft64c,aes:soft32,aes:soft32c,aes:soft64+hazmat,aes:soft32+hazmat est=240 need=8 desc="W(ENC): Aes128 on the state m_keys(rk): encrypt_block(b) == FIPS-197 Cipher(rk, b); all 11 round keys arbitrary (superset of all keys), all blocks; S-box uninterpreted on lane 0 (shared with the oracle), mix_columns_k replaced by their proved specification ShiftRows^-k o MixColumns o ShiftRows^k on lane 0, padding lanes havocked in every stubbed layer; round sequencing, key offsets, add_round_key, shift_rows_2, batch padding, bitslice / inv_bitslice real"
 soft_enc!(soft_enc128, fx::mk128, 10, 88);
 //@ harness name=soft_enc128e prop=C02,C03,C12 tier=quick bits=1536 stub=1 quick_variants=aes:soft64 variants=aes:soft64,aes:soft64c,aes:soft32,aes:soft32c,aes:soft64+hazmat,aes:soft32+hazmat est=155 need=8 desc="W(ENC): Aes128Enc on the state m_keys(rk): encrypt_block(b) == FIPS-197 Cipher(rk, b); all round keys, all blocks"
 soft_enc!(soft_enc128e, fx::mk128e, 10, 88);
-//@ harness name=soft_dec128 prop=C02,C03,C20 tier=thorough bits=1536 stub=1 quick_variants=aes:soft64,aes:soft32 variants=aes:soft64,aes:soft64c,aes:soft32,aes:soft32c,aes:soft64+hazmat,aes:soft32+hazmat est=285 need=10 desc="W(DEC): Aes128 on the state m_keys(rk): decrypt_block(b) == FIPS-197 InvCipher(rk, b) (straight form); all round keys, all blocks; inverse S-box uninterpreted on lane 0, inv_mix_columns_k replaced by their proved specification ShiftRows^-k o InvMixColumns o ShiftRows^k, padding lanes havocked; sequencing, key offsets, add_round_key, inv_shift_rows_2, bitslice real"
+//@ harness name=soft_dec128 prop=C02,C03,C20 tier=quick bits=1536 stub=1 quick_variants=aes:soft64,aes:soft32 variants=aes:soft64,aes:soft64c,aes:soft32,aes:soft32c,aes:soft64+hazmat,aes:soft32+hazmat est=285 need=10 desc="W(DEC): Aes128 on the state m_keys(rk): decrypt_block(b) == FIPS-197 InvCipher(rk, b) (straight form); all round keys, all blocks; inverse S-box uninterpreted on lane 0, inv_mix_columns_k replaced by their proved specification ShiftRows^-k o InvMixColumns o ShiftRows^k, padding lanes havocked; sequencing, key offsets, add_round_key, inv_shift_rows_2, bitslice real"
 soft_dec!(soft_dec128, fx::mk128, 10, 88);
 //@ harness name=soft_dec128d prop=C02,C03,C12 tier=quick bits=1536 stub=1 quick_variants=aes:soft64 variants=aes:soft64,aes:soft64c,aes:soft32,aes:soft32c,aes:soft64+hazmat,aes:soft32+hazmat est=170 need=10 desc="W(DEC): Aes128Dec on the state m_keys(rk): decrypt_block(b) == FIPS-197 InvCipher(rk, b); all round keys, all blocks"
 soft_dec!(soft_dec128d, fx::mk128d, 10, 88);
@@ -337,9 +337,9 @@ soft_dec!(soft_dec128d, fx::mk128d, 10, 88);
 soft_par_enc!(soft_par_enc128, fx::mk128, crate::Aes128, 10, 88);
 //@ harness name=soft_par_dec128 prop=C04,C03 tier=thorough bits=1922 stub=1 est=530 desc="W(PAR): Aes128::decrypt_blocks on one full batch: output block `lane` == InvCipher(rk, input block `lane`), lane symbolic, other lanes havocked; all round keys, all blocks"
 soft_par_dec!(soft_par_dec128, fx::mk128, crate::Aes128, 10, 88);
-//@ harness name=soft_parl_enc128 prop=C04,C03 tier=quick bits=1920 stub=1 variants=aes:soft64,aes:soft64c,aes:soft32,aes:soft32c,aes:soft64+hazmat,aes:soft32+hazmat est=175 need=8 desc="W(PAR, fixed lane): Aes128::encrypt_blocks on one full batch: the LAST output block == Cipher(rk, last input block) with all other lanes havocked in every stubbed layer (so it depends on no other block); all round keys, all blocks"
+//@ harness name=soft_parl_enc128 prop=C04,C03 tier=quick bits=1920 stub=1 variants=aes:soft64,aes:soft64c,aes:soft32,aes:soft32c est=175 need=8 desc="W(PAR, fixed lane): Aes128::encrypt_blocks on one full batch: the LAST output block == Cipher(rk, last input block) with all other lanes havocked in every stubbed layer (so it depends on no other block); all round keys, all blocks"
 soft_parl_enc!(soft_parl_enc128, fx::mk128, crate::Aes128, 10, 88);
-//@ harness name=soft_parl_dec128 prop=C04,C03 tier=quick bits=1920 stub=1 variants=aes:soft64,aes:soft64c,aes:soft32,aes:soft32c,aes:soft64+hazmat,aes:soft32+hazmat est=190 need=10 desc="W(PAR, fixed lane): Aes128::decrypt_blocks on one full batch: the LAST output block == InvCipher(rk, last input block), other lanes havocked; all round keys, all blocks"
+//@ harness name=soft_parl_dec128 prop=C04,C03 tier=quick bits=1920 stub=1 variants=aes:soft64,aes:soft64c,aes:soft32,aes:soft32c est=190 need=10 desc="W(PAR, fixed lane): Aes128::decrypt_blocks on one full batch: the LAST output block == InvCipher(rk, last input block), other lanes havocked; all round keys, all blocks"
 soft_parl_dec!(soft_parl_dec128, fx::mk128, crate::Aes128, 10, 88);
 //@ harness name=soft_conv128 prop=C12 tier=quick bits=5632 est=25 desc="D: Aes128::from(&enc), Aes128::from(enc), Aes128Dec::from(&enc), Aes128Dec::from(enc) and Clone of all three forms carry exactly the key words of the source; arbitrary key words (superset of all keys)"
 soft_conv!(soft_conv128, fx::mk128e, fx::k128, fx::k128e, fx::k128d, crate::Aes128, crate::Aes128Dec, 88);
